@@ -109,7 +109,7 @@ def cli_case(rng, lang, fmt=None, many=False):
     m = rng.randint(21, 24) if many else rng.randint(1, 3)
     base, sents, cats, root_cats, _bf, _uf = glue_checks.full_stack_problem(rng, lang, m)
     opts = dict(nbest=rng.choice([1, 1, 2, 3]), pruning=rng.choice([1, 2, 3, 50, 0, len(cats)]), penalty=rng.choice([0, 6, 13]),
-                use_beta=rng.random() < 0.5, beta=rng.choice([0.5, 0.1, 0.001]), max_length=rng.choice([250, 250, 3]),
+                use_beta=rng.random() < 0.5, beta=rng.choice([0.5, 0.1, 0.001, 1.0, 2.0]), max_length=rng.choice([250, 250, 3]),
                 procs=rng.randint(1, 3), max_step=3000)
     flags = ['--nbest', str(opts['nbest']), '--pruning-size', str(opts['pruning']), '--unary-penalty', repr(opts['penalty'] / S.SCALE),
              '--beta', repr(opts['beta']), '--max-length', str(opts['max_length']), '--max-step', str(opts['max_step']),
